@@ -63,15 +63,18 @@ def oracle_fwd_grad(ck, filt, J, shape, o, ri, skm, inm, named, tol):
         Jm = torch.stack(cols)
     x = T(gen.int_tensor(rng, (1, 1) + tuple(shape), 3)).requires_grad_(True)
     outs = outs_of(x)
-    cots = [T(gen.int_tensor(rng, tuple(t.shape), 3)) for t in outs]
+    from ..gradcheck import pull_variants
+    err = 0.0
     try:
-        (g,) = torch.autograd.grad(outs, x, cots)
+        for label, eff, grads in pull_variants(rng, outs, [x], lambda t: T(gen.int_tensor(rng, tuple(t.shape), 3))):
+            g = grads[0] if grads[0] is not None else torch.zeros_like(x)
+            want = Jm @ flat(eff)
+            e1 = float((g.reshape(-1) - want).abs().max())
+            err = max(err, e1)
+            if not (e1 <= tol * max(1.0, float(want.abs().max()))):
+                ck.fail(desc + ' [%s]: |grad - J^T g| = %.3g' % (label, e1), replay); return 'diff'
     except Exception as e:
         ck.fail(desc + ': backward raises %s: %s' % (type(e).__name__, str(e)[:120]), replay); return 'raise'
-    want = Jm @ flat(cots)
-    err = float((g.reshape(-1) - want).abs().max())
-    if err > tol * max(1.0, float(want.abs().max())):
-        ck.fail(desc + ': |grad - J^T g| = %.3g' % err, replay); return 'diff'
     ck.oracle_ok(('fwd', J, tuple(shape), o, ri, skm, inm, named), group='fwd-grad',
                  sample={'what': 'autograd(DTCWTForward) == J^T g', 'J': J, 'shape': list(shape), 'layout': [o, ri], 'skip': bin(skm), 'include_scale': bin(inm), 'filters': named, 'err': err})
     return None
@@ -90,32 +93,37 @@ def oracle_inv_grad(ck, filt, J, H, W, o, ri, mask, named, tol):
     desc = 'DTCWTInverse gradient J=%d image=%dx%d layout=(%d,%d) requires_grad=%s filters=%s' % (J, H, W, o, ri, bin(mask), named)
     replay = {'oracle': 'inv_grad', 'filt': [arr_json(f) for f in filt], 'J': J, 'H': H, 'W': W, 'o': o, 'ri': ri, 'mask': mask, 'named': named, 'tol': tol}
     y = mod((ins[0], ins[1:]))
-    g = T(gen.int_tensor(rng, tuple(y.shape), 3))
     need = [t for t in ins if t.requires_grad]
+    from ..gradcheck import pull_variants
+    blocks = {}
+    with torch.no_grad():
+        for i, t in enumerate(ins):
+            if not t.requires_grad:
+                continue
+            base = [torch.zeros(tuple(u.shape), dtype=u.dtype) for u in ins]
+            rows = []
+            for k in range(t.numel()):
+                base[i].reshape(-1)[k] = 1
+                rows.append(mod((base[0], base[1:])).reshape(-1).clone())
+                base[i].reshape(-1)[k] = 0
+            blocks[i] = torch.stack(rows)
+    worst = 0.0
     try:
-        grads = torch.autograd.grad([y], need, [g], allow_unused=True)
+        for label, eff, grads in pull_variants(rng, [y], need, lambda t: T(gen.int_tensor(rng, tuple(t.shape), 3)), repeats=3):
+            it = iter(grads)
+            for i, t in enumerate(ins):
+                if not t.requires_grad:
+                    continue
+                gi = next(it)
+                if gi is None:
+                    ck.fail(desc + ' [%s]: argument %d requires grad but received None' % (label, i), replay); return 'none'
+                want = blocks[i] @ eff[0].reshape(-1)
+                err = float((gi.reshape(-1) - want).abs().max())
+                worst = max(worst, err)
+                if not (err <= tol * max(1.0, float(want.abs().max()))):
+                    ck.fail(desc + ' [%s]: argument %d |grad - J^T g| = %.3g' % (label, i, err), replay); return 'diff'
     except Exception as e:
         ck.fail(desc + ': backward raises %s: %s' % (type(e).__name__, str(e)[:120]), replay); return 'raise'
-    it = iter(grads)
-    worst = 0.0
-    for i, t in enumerate(ins):
-        if not t.requires_grad:
-            continue
-        gi = next(it)
-        if gi is None:
-            ck.fail(desc + ': argument %d requires grad but received None' % i, replay); return 'none'
-        n_i = t.numel()
-        with torch.no_grad():
-            base = [torch.zeros(tuple(u.shape), dtype=u.dtype) for u in ins]
-            want = torch.zeros(n_i)
-            for k in range(n_i):
-                base[i].reshape(-1)[k] = 1
-                want[k] = (mod((base[0], base[1:])) * g).sum()
-                base[i].reshape(-1)[k] = 0
-        err = float((gi.reshape(-1) - want).abs().max())
-        worst = max(worst, err)
-        if err > tol * max(1.0, float(want.abs().max())):
-            ck.fail(desc + ': argument %d |grad - J^T g| = %.3g' % (i, err), replay); return 'diff'
     ck.oracle_ok(('inv', J, H, W, o, ri, mask, named), group='inv-grad',
                  sample={'what': 'autograd(DTCWTInverse) == J^T g for every argument requiring grad', 'J': J, 'image': [H, W], 'layout': [o, ri], 'mask': bin(mask), 'filters': named, 'err': worst})
     return None
